@@ -8,9 +8,9 @@ import WuffsVerif.Proof.Flate.Assembly
 namespace WuffsVerif.Flate.Cut
 open WuffsVerif.Gen.C16 WuffsVerif.Flate.Spec
 
-theorem dynOK_all (s : Bytes) (p : Nat) (out : Bytes) (hty : bitsLE s (p + 1) 2 = 2) : DynOK s p out := by
-  intro c p1 out1 isFirst hc hb hp hbody hcd hT
-  exact ⟨dynamic_blocksim s c hc hb p hp out p1 out1 hty hbody hcd hT isFirst,
+theorem dynOK_all (s : Bytes) (k p : Nat) (out : Bytes) (hty : bitsLE s (p + 1) 2 = 2) : DynOK s k p out := by
+  intro c p1 out1 isFirst hc hb hp hbody hcd hc0 hT
+  exact ⟨dynamic_blocksim s c hc hb p hp out p1 out1 hty hbody k hcd hc0 hT isFirst,
     blockAt_dynamic s p out p1 out1 hty hbody⟩
 
 /-- **THE property for every valid DEFLATE stream** (`flatecut.Cut`, with or without a writer, any
@@ -35,11 +35,12 @@ theorem Cut_all (w : Bool) (s T : Bytes) (n0 : Nat) (limit : Int) (r : CutResult
       split at h
       · simp at h
       · rename_i enc eLen dLen hc
-        have hg := cutLoop_walk s T n0 hs (by omega) (fun n p out _ h2 => dynOK_all s p out h2) m (by omega) hcl.1
-          (8 * s.size + 2) 0 ⟨⟨s, 0, 0, 0⟩, m, 0, 0, 0, Huffman.zero, Huffman.zero⟩ none 0 #[] (8 * s.size + 1) pE
-          enc eLen dLen RReach.zero
-          ⟨inv_fresh s 0 (Nat.zero_le _), hcl.1, Huffman.zero_shape, Huffman.zero_shape⟩ rfl rfl rfl
-          (by simp) rfl hblk hc
+        have hg := good_of_goodD T enc eLen dLen
+          (cutLoop_walk #[] s T pE hblk (by omega) (fun n p out _ h2 => dynOK_all s _ p out h2) m (by omega) hcl.1
+            (8 * s.size + 2) 0 ⟨⟨s, 0, 0, 0⟩, m, 0, 0, 0, Huffman.zero, Huffman.zero⟩ none 0 #[] (8 * s.size + 1) pE
+            enc eLen dLen RReach.zero
+            ⟨inv_fresh s 0 (Nat.zero_le _), hcl.1, Huffman.zero_shape, Huffman.zero_shape⟩ rfl rfl rfl
+            (by simp) rfl hblk hc)
         obtain ⟨hg1, hg2⟩ := hg
         have hio := inflate_some_out _ _ _ hg1
         split at h
@@ -48,6 +49,131 @@ theorem Cut_all (w : Bool) (s T : Bytes) (n0 : Nat) (limit : Int) (r : CutResult
           split at h <;> simp at h
           subst h
           exact ⟨hg1, hg2, fun _ => rfl⟩
+        · rename_i hw
+          simp at h
+          subst h
+          exact ⟨hg1, hg2, fun hw' => absurd hw' hw⟩
+
+/-! ## streams that need a preset dictionary -/
+
+/-- the preset dictionary as the decoder uses it: its last 32768 bytes -/
+def truncDict (dict : Bytes) : Bytes :=
+  if dict.size > windowSize then dict.extract (dict.size - windowSize) dict.size else dict
+
+theorem truncDict_size (dict : Bytes) : (truncDict dict).size ≤ 32768 := by
+  unfold truncDict
+  have hw : windowSize = 32768 := rfl
+  split
+  · simp only [Array.size_extract]; omega
+  · omega
+
+theorem truncDict_empty : truncDict #[] = #[] := by
+  unfold truncDict
+  have : ¬ ((#[] : Bytes).size > windowSize) := by simp [windowSize]
+  rw [if_neg this]
+
+/-- `inflateDict dict s = some (T, n)` in terms of the block loop started with the dictionary as output. -/
+theorem inflateDict_blocks (dict s T : Bytes) (n0 : Nat) :
+    Spec.inflateDict dict s = some (T, n0) ↔
+    ∃ pE, blocks s none 0 (8 * s.size + 1) 0 (truncDict dict) = ⟨.done, pE, truncDict dict ++ T⟩ ∧ n0 = (pE + 7) / 8 := by
+  have hraw : Spec.inflateRaw dict s none =
+      { blocks s none 0 (8 * s.size + 1) 0 (truncDict dict) with
+        out := (blocks s none 0 (8 * s.size + 1) 0 (truncDict dict)).out.extract (truncDict dict).size
+          (blocks s none 0 (8 * s.size + 1) 0 (truncDict dict)).out.size } := by
+    simp only [Spec.inflateRaw, truncDict]
+    split <;> rw [Spec.blocks_lo s _ 0]
+  simp only [Spec.inflateDict, hraw]
+  cases hR : blocks s none 0 (8 * s.size + 1) 0 (truncDict dict) with
+  | mk st pos ro =>
+  simp only []
+  constructor
+  · intro h
+    split at h
+    · rename_i hst
+      simp only [Option.some.injEq, Prod.mk.injEq] at h
+      subst hst
+      obtain ⟨x, hx⟩ := blocks_extends s _ 0 _ _ _ hR
+      subst hx
+      refine ⟨pos, ?_, h.2.symm⟩
+      rw [← h.1]
+      congr 2
+      rw [Array.extract_append]
+      simp
+    · simp at h
+  · rintro ⟨pE, h1, h2⟩
+    simp only [Result.mk.injEq] at h1
+    obtain ⟨rfl, rfl, rfl⟩ := h1
+    simp only [if_true, Option.some.injEq, Prod.mk.injEq]
+    refine ⟨?_, h2.symm⟩
+    rw [Array.extract_append]
+    simp
+
+/-- re-decoding WITHOUT the dictionary (what `Cut(w != nil)` does) a stream that decodes with it: unless
+that fails with `corrupt`, it yields the same bytes. -/
+theorem redecode_nodict (D X o : Bytes) (pos' : Nat)
+    (hb : blocks X none 0 (8 * X.size + 1) 0 D = ⟨.done, pos', D ++ o⟩)
+    (hst : (Spec.inflateRaw #[] X none).status ≠ .corrupt) :
+    (Spec.inflateRaw #[] X none).out = o ∧ (Spec.inflateRaw #[] X none).status = .done := by
+  rw [inflateRaw_nodict] at hst ⊢
+  cases hR : blocks X none 0 (8 * X.size + 1) 0 #[] with
+  | mk st pos ro =>
+  rw [hR] at hst
+  simp only [] at hst ⊢
+  have hd := Spec.blocks_dict D X none 0 _ _ _ _ _ _ hR hst
+  rw [Nat.zero_add, Array.append_empty, Spec.blocks_lo _ D.size 0, hb] at hd
+  simp only [Result.mk.injEq] at hd
+  obtain ⟨h1, _, h3⟩ := hd
+  have : ro = o := (append_cancel_left D _ _ h3).symm
+  subst this
+  exact ⟨Array.extract_eq_self_of_le (Nat.le_refl _), h1.symm⟩
+
+/-- **THE property for every DEFLATE stream that is valid with a preset dictionary** (`flate.NewReaderDict`;
+the payload of a zlib stream with FDICT): whenever `flatecut.Cut` succeeds — it walks the blocks without
+looking at the dictionary, and re-decodes WITHOUT it in `cutSingleBlock` and when a writer is passed, which
+fails if the kept part refers to the dictionary —, the first `encodedLen` bytes of the modified buffer
+are a complete DEFLATE stream that, decoded with the same dictionary, yields exactly the first
+`decodedLen` bytes of the original output; the writer receives those bytes. -/
+theorem Cut_all_dict (w : Bool) (dict s T : Bytes) (n0 : Nat) (limit : Int) (r : CutResult)
+    (hs : Spec.inflateDict dict s = some (T, n0)) (hT : T.size + 32768 < 2147483648) (h : Cut w s limit = .ok r) :
+    Spec.inflateDict dict (r.encoded.extract 0 r.encodedLen) = some (T.extract 0 r.decodedLen, r.encodedLen) ∧
+    r.decodedLen ≤ T.size ∧ (w = true → r.written = T.extract 0 r.decodedLen) := by
+  obtain ⟨pE, hblk, _⟩ := (inflateDict_blocks dict s T n0).mp hs
+  have hDsz := truncDict_size dict
+  generalize hD : truncDict dict = D at hblk hDsz
+  rw [Cut_eq] at h
+  split at h
+  · simp at h
+  · rename_i hlim
+    simp only [smallestValidMaxEncodedLen] at hlim
+    have hcl := clampLimit_le limit s.size (by omega)
+    generalize clampLimit limit s.size = m at h hcl
+    split at h
+    · simp at h
+    · rename_i hm2
+      simp only [smallestValidMaxEncodedLen] at hm2
+      split at h
+      · simp at h
+      · rename_i enc eLen dLen hc
+        have hg := cutLoop_walk D s (D ++ T) pE hblk (by simp only [Array.size_append]; omega)
+          (fun n p out _ h2 => dynOK_all s _ p out h2) m (by omega) hcl.1
+          (8 * s.size + 2) 0 ⟨⟨s, 0, 0, 0⟩, m, 0, 0, 0, Huffman.zero, Huffman.zero⟩ none 0 D (8 * s.size + 1) pE
+          enc eLen dLen RReach.zero
+          ⟨inv_fresh s 0 (Nat.zero_le _), hcl.1, Huffman.zero_shape, Huffman.zero_shape⟩ rfl rfl rfl
+          (by simp) rfl hblk hc
+        obtain ⟨⟨pos', hb, he⟩, hg2⟩ := hg
+        rw [extract_append_dict] at hb
+        have hg2 : dLen ≤ T.size := by simp only [Array.size_append] at hg2; omega
+        have hg1 : Spec.inflateDict dict (enc.extract 0 eLen) = some (T.extract 0 dLen, eLen) :=
+          (inflateDict_blocks dict _ _ _).mpr ⟨pos', by rw [hD]; exact hb, he.symm⟩
+        split at h
+        · rename_i hw
+          by_cases hst : (Spec.inflateRaw #[] (enc.extract 0 eLen) none).status = .corrupt
+          · simp [hst] at h
+          · obtain ⟨hio1, hio2⟩ := redecode_nodict D _ _ pos' hb hst
+            simp only [hio1, hio2] at h
+            split at h <;> simp at h
+            subst h
+            exact ⟨hg1, hg2, fun _ => rfl⟩
         · rename_i hw
           simp at h
           subst h
